@@ -8,6 +8,8 @@ from .fsprops import *
 H = 'props.fsprops'
 
 
+MIR_KINDS = ('lib', 'bin')
+
 def jobs(tier):
     js = []
     quick = tier == 'quick'
@@ -29,12 +31,21 @@ def jobs(tier):
             for g in ['temp', 'cont prefix', 'cont bare', 'run', 'tag A']:
                 js.append({'name': 'build-clean 3 lines %s/%s CRLF' % (f, g), 'harness': (H, 'h_clean'),
                            'params': {'nlines': 3, 'menu_name': 'small', 'fixed': [f, g], 'history': 'build-clean', 'le_choices': (b'\r\n',)}})
+    # a directory sitting at the temp target: clean cannot remove it, must not fail, and still removes what comes later
+    for sc in (['temp'], ['temp', 'cont prefix'], ['temp', 'text'], ['text', 'temp']):
+        for hist in ('clean', 'build-clean-clean'):
+            js.append({'name': '%s with a directory at the temp target: %s' % (hist, '/'.join(sc)), 'harness': (H, 'h_clean'),
+                       'params': {'nlines': len(sc), 'menu_name': 'small', 'fixed': sc, 'history': hist, 'dir_at_temp': True}})
     # erroneous directives (no prefix on a multi-line directive, indented) naming a file the user wrote by hand
     for hist in ('clean', 'build-clean'):
         for f in ('temp', 'run', 'write', 'empty'):
             js.append({'name': '%s prefix-less %s + following lines, hand-written t.tmp' % (hist, f), 'harness': (H, 'h_clean'),
                        'params': {'nlines': 3 if f != 'temp' else 2, 'menu_name': 'indent', 'fixed': [f], 'history': hist, 'pre_temp_len': 2},
                        'split': 4})
+    # the mode / options the binary hands to the library for every flag combination (real main() from the bin crate's MIR)
+    for sub in ('Clean',):
+        js.append({'name': 'cli: options passed to the run for sub-command %s x all flags' % sub, 'harness': ('props.c17', 'h_cli'),
+                   'mir': ('lib', 'bin'), 'params': {'sub': sub, 'txtpp_file': None}})
     from . import project
     js += project.jobs('C07', tier)
     return js
@@ -64,7 +75,9 @@ def replay(native, v):
             src = ppreplay.conc(d['source'], model)
             targets = [bytes(t) for t in specpp.temp_targets_all(ConcreteCtx(), tuple(src))]
             named = b't.tmp' in targets
-            hand = ppreplay.conc(d['pre_temp'], model) if d.get('pre_temp') is not None else None
+            hand = ppreplay.conc(d['pre_temp'], model) if d.get('pre_temp') not in (None, 'DIR') else None
+            if d.get('pre_temp') == 'DIR' and 't.tmp' not in r['listing']:
+                bad = True              # the directory at the temp target was removed
             if build is None or build['rc'] == 0:
                 if r['output'] is not None or (r['temp'] is not None and (hand is None or named)):
                     bad = True
